@@ -164,7 +164,7 @@ RunCtl ctl_from_plan(Plan const& p)
     c.lat_n = p.ln;
     // unusual but legal user code, decided by bits of the integrand seed: a nesting integrand (1/8 of
     // the plans), a user callback that keeps its state inside the functor (1/2 of the plans)
-    c.nested = (mix2(p.fseed, 60001) % 8) == 0 && p.scn != "lattice";
+    c.nested = (mix2(p.fseed, 60001) % 8) == 0 && !(p.scn == "lattice" && p.variant == 4);
     c.user_stateful = (mix2(p.fseed, 60002) & 1) != 0;
     c.base_typed = (mix2(p.fseed, 60003) & 1) != 0;
     c.params_from_chkpt = (mix2(p.fseed, 60004) % 3) == 0;
@@ -313,6 +313,10 @@ bool durability_check(Plan const& p, IWorld& nw, ChkptView const& before, std::s
 bool Session::reload(char const* where)
 {
     ChkptView const before = w->view();
+    {
+        std::string const br = w->base_roundtrip();
+        if (!br.empty()) rep.fail("C05", "base-checkpoint-roundtrip", key_of(p), fmt("%s: %s", where, br.c_str()));
+    }
     std::unique_ptr<IWorld> nw = make_world(p.nt, p.eng);
     std::size_t const nfind = rep.findings.size();
     bool const ok = durability_check(p, *nw, before, before.text, rep, where);
